@@ -10,6 +10,26 @@ abbrev P (α : Type) := Bytes → Option (α × Bytes)
 
 def take (n : Nat) : P Bytes := fun bs => if n ≤ bs.length then some (bs.take n, bs.drop n) else none
 
+/-- same function without measuring the whole remaining input (used by the compiler through `take_eq_takeFast`) -/
+def takeFastGo : Nat → Bytes → Bytes → Option (Bytes × Bytes)
+  | 0, bs, acc => some (acc.reverse, bs)
+  | _+1, [], _ => none
+  | n+1, b :: bs, acc => takeFastGo n bs (b :: acc)
+def takeFast (n : Nat) : P Bytes := fun bs => takeFastGo n bs []
+
+theorem takeFastGo_eq : ∀ (n : Nat) (bs acc : Bytes),
+    takeFastGo n bs acc = if n ≤ bs.length then some (acc.reverse ++ bs.take n, bs.drop n) else none
+  | 0, bs, acc => by simp [takeFastGo]
+  | n+1, [], acc => by simp [takeFastGo]
+  | n+1, b :: bs, acc => by
+    rw [takeFastGo, takeFastGo_eq n bs (b :: acc)]
+    simp only [List.length_cons, Nat.add_le_add_iff_right, List.reverse_cons, List.append_assoc, List.cons_append,
+      List.nil_append, List.take_succ_cons, List.drop_succ_cons]
+
+@[csimp] theorem take_eq_takeFast : @take = @takeFast := by
+  funext n bs
+  simp [take, takeFast, takeFastGo_eq]
+
 def le (bs : Bytes) : Nat := bs.foldr (fun b acc => b.toNat + 256 * acc) 0
 def toLE : Nat → Nat → Bytes
   | 0, _ => []
